@@ -36,7 +36,7 @@ def shards(tier, seed):
 
 def floors(tier):
     return {"relabel:calls": 1000, "relabel_map:calls": 500, "iso_finder:calls": 300, "iso_finder:sort_emit": 50,
-            "iso_finder:label_map": 50, "iso_finder:n>=8": 20, "orbit:lc_orbit_finder": 100, "orbit:rgs": 10, "orbit:linear": 10, "orbit:scripted_walk_distinctness_checked": 20, "orbit:returned_graph_edited_and_explored": 15, "orbit:linear_even_length_repeated": 2,
+            "iso_finder:label_map": 50, "iso_finder:n>=8": 20, "iso_finder:n>=10": 15, "orbit:lc_orbit_finder": 100, "orbit:rgs": 10, "orbit:linear": 10, "orbit:scripted_walk_distinctness_checked": 20, "orbit:returned_graph_edited_and_explored": 15, "orbit:linear_even_length_repeated": 2,
             "orbit:depth_first": 20, "orbit:graphs_checked": 1000, "lcomp_probe:steps": 1000, "relabel_map:permuted_insertion_order": 1000}
 
 
@@ -196,6 +196,9 @@ def check_relabel(A, perm, ctx):
 def run_iso(spec, ctx, rng):
     for i in range(spec["count"]):
         n = [3, 4, 5, 6, 7, 8, 9][i % 7] if i % 5 else int(rng.integers(2, 6))
+        if i % 9 == 4:
+            n = int(rng.integers(10, 19))       # n(n-1)/2 passes 32 and 64: where a packed integer key of the graph would wrap
+            ctx.count("iso_finder:n>=10")
         A = rand_graph(rng, n, i // 2)
         nmax = math.factorial(n)
         kw = {"n_iso": int(min(nmax, [1, 2, 3, 5, 8, 13, 24, 40][int(rng.integers(8))])),
